@@ -59,8 +59,9 @@ OBLIGATIONS += [
     gavr("imm", "G_IMM", ["DecodeImm", "DecodeCBR", "DecodeSER"], "7 register-immediate instructions, CBR, SER x register number 0..39, any 64-bit constant"),
     gavr("rel", "G_REL", ["DecodeRel", "DecodeRJMPCALL", "GetWordCodeAddress", "GetNextCodeAddress"], "18 conditional branches, RJMP, RCALL; any 64-bit target, any PC below 64K words"),
     gavr("bit", "G_BIT", ["DecodeBit", "DecodeBCLRSET"], "BLD/BST/SBRC/SBRS x register 0..39 x any bit value; BSET/BCLR any value"),
+    dict(gavr("pbit", "G_PBIT", ["DecodePBit", "DecodeBitArg", "DecodeBitArg2"], "CBI/SBI/SBIC/SBIS with a plain-number address and bit operand, any 64-bit values"), object_bits=12, units=["asmdef.c", "bpemu.c", "strcomp.c"]),
     gavr("io", "G_IO", ["DecodeINOUT", "DecodeADIW", "DecodeMOVW", "DecodeMULS", "DecodeLDSSTS", "DecodeJMPCALL"], "IN, OUT, ADIW, SBIW, MOVW, MULS, LDS, STS, JMP, CALL with register numbers 0..39 and any 64-bit constant"),
 ]
-META = dict(outside=["6502/65C02, Z80, MSP430 (no harness)", "AVR: LD/ST/LDD/STD/LPM/ELPM/SBI/CBI/SBIC/SBIS/FMUL*, byte-addressed code segment, cores below megaAVR, register aliases", "8080/8085: Z80-syntax mode, undocumented 8085 instructions", "PIC16: default destination, OPTION/TRIS/BANKSEL/SFR/ZERO/DATA pseudo forms", "mnemonic hash dispatch (asmitree.c)", "operand text parsing beyond the concrete forms",
+META = dict(outside=["6502/65C02, Z80, MSP430 (no harness)", "AVR: LD/ST/LDD/STD/LPM/ELPM/FMUL*, bit symbols (BIT) and 'addr.bit' operands, byte-addressed code segment, cores below megaAVR, register aliases", "8080/8085: Z80-syntax mode, undocumented 8085 instructions", "PIC16: default destination, OPTION/TRIS/BANKSEL/SFR/ZERO/DATA pseudo forms", "mnemonic hash dispatch (asmitree.c)", "operand text parsing beyond the concrete forms",
                      "JCN with a numeric condition, DATA/DS/REG pseudo instructions"],
             assumptions=["malloc never fails"])
